@@ -72,23 +72,28 @@ def lookup (s : Store) (mid : Nat) (url : Bytes) (mk : Bytes) : Look :=
     else if e.objMark = some mk then .hit e (some mk)         -- VARY_MATCH on a variant found under the base key
     else .miss (some mk)                                       -- VARY_CANCEL
 
-/-- a cacheable, fresh 200 reply to a miss is stored: httpMaybeRemovePublic, vary mark, adjustVary (marker), setPublicKey -/
-def storeReply (s : Store) (mid : Nat) (url : Bytes) (reqMark : Option Bytes) (mk : Bytes) (vary : Bool) (gen : Nat) : Store :=
-  -- httpMaybeRemovePublic(entry, 200): findPreviouslyCachedEntry + the HEAD entry
+/-- `httpMaybeRemovePublic(entry, 200)`: `findPreviouslyCachedEntry` and the HEAD entry are released -/
+def removePrevious (s : Store) (mid : Nat) (url : Bytes) (reqMark : Option Bytes) : Store :=
   let s1 := match getByRequest s mid url reqMark with
     | some pe => storeRemove s pe.mid pe.url pe.mark
     | none => s
-  let s2 := storeRemove s1 PurgeTables.methodHead url reqMark
+  storeRemove s1 PurgeTables.methodHead url reqMark
+
+/-- `adjustVary`, first half: a changed variance kills the base object -/
+def killBaseOnChange (s : Store) (mid : Nat) (url : Bytes) (reqMark objMark : Option Bytes) : Store :=
+  if objMark.isSome && reqMark.isSome && reqMark != objMark then storeRemove s mid url none else s
+
+/-- `adjustVary`, second half: the marker object is created when the reply varies and the base key is free -/
+def addMarker (s : Store) (mid : Nat) (url : Bytes) (objMark : Option Bytes) (gen : Nat) : Store :=
+  if objMark.isSome && (storeGet s mid url none).isNone
+  then { mid := mid, url := url, mark := none, hasVary := true, objMark := none, gen := gen : Entry } :: s else s
+
+/-- a cacheable, fresh 200 reply to a miss is stored: httpMaybeRemovePublic, vary mark, adjustVary, setPublicKey (whatever sits
+under the new key is replaced; the key's mark is the object's mark) -/
+def storeReply (s : Store) (mid : Nat) (url : Bytes) (reqMark : Option Bytes) (mk : Bytes) (vary : Bool) (gen : Nat) : Store :=
   let objMark : Option Bytes := if vary then some mk else none
-  -- adjustVary: the key's mark follows the object's; a changed variance kills the base object
-  let s3 := if vary && reqMark.isSome && reqMark != objMark then storeRemove s2 mid url none else s2
-  let keyMark := objMark
-  -- adjustVary: create the marker when the base key is free
-  let s4 := if vary && (storeGet s3 mid url none).isNone
-    then { mid := mid, url := url, mark := none, hasVary := true, objMark := none, gen := gen : Entry } :: s3 else s3
-  -- setPublicKey: whatever sits under the new key is replaced
-  let s5 := storeRemove s4 mid url keyMark
-  { mid := mid, url := url, mark := keyMark, hasVary := vary, objMark := objMark, gen := gen : Entry } :: s5
+  let s4 := addMarker (killBaseOnChange (removePrevious s mid url reqMark) mid url reqMark objMark) mid url objMark gen
+  { mid := mid, url := url, mark := objMark, hasVary := vary, objMark := objMark, gen := gen : Entry } :: storeRemove s4 mid url objMark
 
 /-! ### histories -/
 
@@ -126,8 +131,8 @@ def step (st : St) : Ev → St × Obs
 def run : St → List Ev → St × List Obs
   | st, [] => (st, [])
   | st, e :: r =>
-    let (st1, o) := step st e
-    let (st2, os) := run st1 r
-    (st2, o :: os)
+    let so := step st e
+    let ro := run so.1 r
+    (ro.1, so.2 :: ro.2)
 
 end SquidModel.Cache.Purge
